@@ -25,7 +25,7 @@ Qed.
 Definition bump_id (s : st) : st :=
   {| store := store s; next_id := Pos.succ (next_id s); log := log s; steps := steps s;
      fail_at := fail_at s; htabs := htabs s; flags := flags s; files := files s;
-     nfiles := nfiles s; mlog := mlog s |}.
+     nfiles := nfiles s; mlog := mlog s; glog := glog s |}.
 
 (* first occurrence of a locally bound variable: a new cell with a fresh     *)
 (* serial, holding the value the variable has NOW; remembered for the rest    *)
